@@ -665,7 +665,8 @@ def _is_key_constructor_site(b, c):
     from .facts import walk
     for u in b.calls():
         if u.fn.startswith("fjall::") and u.bb in b.live_blocks():
-            for a in u.arg_exprs():
+            # (the receiver - a partition, a keyspace, a batch handed out by a `durable_batch()` helper - is not a key)
+            for a in u.arg_exprs()[1:]:
                 for y in walk(a):
                     if y[0] == "call" and y[1].body is c.body and y[1].bb == c.bb:
                         return True
